@@ -18,6 +18,41 @@ Clauses
                 positions, minwidth, vacuumwidth, outofplane, faultshift, minimum_r, Cartesian fault positions and the documented
                 `tol` argument of FreeSurface / StackingFault (a length: default x S) are all multiplied by S; every oracle
                 tolerance is relative to the cell size.  free_surface_basis has no tolerance argument and must be unit-free.
+
+Generator classes carried over from the seeded rounds of the other properties (all judged by the same oracles; helpers in
+pbt/gens_c14.py):
+ A  ledger   everything a call returned or the object handed out - uvws and normals of free_surface_basis, the systems of surface(),
+             fault(), iterfaultmap(), rcell, the shifts / uvws / transform attributes - is kept with a bit-for-bit snapshot and compared
+             after the LATER calls of the case on the same object and on a second object built on the same unit cell ('ledger',
+             'ledger_other'); two results must not share memory, nor a result with an argument.
+ B  caller   ('caller_mut') the caller keeps the objects it handed in (index / multiplier / shift-vector / faultshift arrays and lists):
+             they are bit-identical (values, dtype, shape, strides) after every call; at the end it overwrites them in place together
+             with the systems handed out earlier and the unit cell (positions in place, cell through box_set), then asks for the last
+             result again with fresh arguments: bit for bit the same.  The system returned by surface() IS the documented `system`
+             attribute and is left alone; `ucell` is documented as the caller's object and is not used after it was overwritten
+             through the shift-vector setters.  Two genuine defects met (keyed, see K_SIZEMULTS, K_SHIFT).
+ C  forms    hkl as tuple / int8 ... uint64 / big-endian / bool / float64-32-16 arrays, lists of numpy scalars, read-only, strided,
+             negative-stride arrays ('hkl_form', 'hkl_narrow', ...); size multipliers as tuple / numpy integers / integer arrays;
+             shift, faultshift, a?vect_uvw as tuples / float32 / big-endian / read-only / strided arrays (a float32 array IS the numbers
+             it holds: the oracle decides from its float64 value); minwidth, vacuumwidth, a1, a2, outofplane, fault positions as
+             numpy float64 / float32 scalars and 0-d arrays, shiftindex / num_a1 as numpy integers; the unit cell storing its
+             positions as float32 / float16 / big-endian / Fortran-ordered / read-only / strided arrays and its types as int8 ...
+             ('store...').  Index values stay within the index bound of the property (the search cost grows with the cube).
+ D  units    present as the LENGTH UNIT classes above ('scaled', 'scale_si', ...).  reset_units itself does not apply: none of
+             free_surface_basis, FreeSurface, StackingFault, System.rotate / supersize / wrap, Box reads the working-unit state.
+ E  near     cells 1e-12 ... 1e-3 off the special values of their family ('near_sym': almost-equal lengths, almost-right angles,
+             almost-zero tilts, staying off Box's 1e-9 clean-up which is modelled); a second atomic layer 1e-6 ... 1e-4 above an
+             existing one, judged against the documented `tol` ('near_layer'); minwidth a hair below / above / exactly at a whole
+             number of oriented cells ('minwidth_near'); the fault plane 1e-6 ... 1e-3 of the slab width from an atomic layer
+             ('fpos_near_layer'); fractional shifts a hair from 0 / a full lattice vector ('kind_a12near').
+ F  decades  the components of ONE fault-shift request (a1 ~ 1e-9, a2 ~ 0.4, outofplane ~ 1e-5; or a faultshift vector) span 8+
+             decades: judged at rounding level (1e-12 of the coordinates) and again as the smallest component alone ('decades').
+             Cell vectors spanning 8+ decades do not apply: Box zeroes components below 1e-9 of the largest one.
+ G  sym      exact images of a cell: the 23 proper signed permutations of the Cartesian axes ('sym_perm'), lattice vectors renamed
+             cyclically ('sym_relabel'); planes perpendicular to the cut vector, where the answer is the cell itself or a signed
+             relabelling ('rows_identity', 'rows_signed_perm'); exact halves and atoms exactly on the fault plane were there.
+ H  options  clause `options`: every combination of the options that touch the same state, and the state-changing calls in every
+             order, enumerated (see enum_options).
 """
 import functools
 import itertools
@@ -51,7 +86,15 @@ RULE = ("basis: every integer plane (hkl) with max|index| <= 3 (thorough: 4) x t
         "(cell vectors, positions, minwidth, vacuumwidth, outofplane, faultshift, minimum_r, Cartesian fault positions, and the "
         "`tol` constructor argument, which is a length) is multiplied by S = 10**k, k in -12..6: k = 0 in half of the random "
         "cases, k = -10 (SI) in a sixth; in the enumerated basis clause one block of planes in four is given in another unit "
-        "(every plane x cut is still visited once per cell).")
+        "(every plane x cut is still visited once per cell).  Carried over from the seeded rounds of the other properties: a ledger of "
+        "every returned array / system re-judged bit for bit after later calls on the same and on a second object; arguments "
+        "bit-identical after every call, then overwritten by the caller together with earlier results and the unit cell before the "
+        "last result is asked for again; input forms (tuple, narrow / unsigned / big-endian / bool / float index arrays, numpy scalars, "
+        "read-only / strided arrays, float32 vectors, float32 / float16 / Fortran / read-only storage of the unit cell); near-threshold "
+        "inputs (cells 1e-12 ... 1e-3 off their family, atomic layers 1e-6 ... 1e-4 apart, minwidth a hair from a whole number of "
+        "cells, fault plane a hair from a layer, shifts a hair from a lattice vector); shift requests whose components span 8+ decades; "
+        "exact signed-permutation / renamed images of the cells and planes perpendicular to the cut vector; option combinations and "
+        "call orders enumerated (clause options).")
 ASSUMPTIONS = [
     "numpy linear algebra is correct",
     "the table of primitive cell vectors per centring (pbt/oracles/surface_ref.PN, the standard choices used by "
@@ -90,14 +133,32 @@ ASSUMPTIONS = [
     "fault position or shift vector passed to fault() outlives that call is not stated and never relied on",
     "System.rotate / supersize / wrap are decided by C04 / C05; box origin of the unit cell is zero (the translation "
     "convention of rotate for other origins is not fixed by the property)",
+    "a float32 / float16 / integer array or numpy scalar handed in means the float64 value it holds; a unit cell whose positions are "
+    "stored in float32 / float16 consists of those stored values (generic coordinates only: layers that coincide before the rounding "
+    "would be an ambiguity of the caller's data)",
+    "Box zeroes every component of the cell vectors below 1e-9 of the largest one (modelled for the near-symmetric cells; the "
+    "generator stays off the threshold itself: perturbations 1e-12, 1e-11 or >= 1e-7)",
+    "atomic layers more than `tol` apart cannot be merged by FreeSurface (coordinates along the cut are rounded to -log10(tol) "
+    "decimals): in a unit cell built with two layers 1e-6 ... 1e-4 apart the layer structure counts as ambiguous only below 3 tol",
+    "the size multipliers are documented as 'list or tuple' and as input: they must be accepted as a tuple and be unchanged after the "
+    "call; a shift handed in as an array is a value, not a reference: overwriting the caller's array later, or the array handed out as "
+    "the `shift` attribute, must not change the termination in force nor the table of offered shifts (both violated by the unchanged "
+    "code: keyed findings); the system returned by surface() is the object's `system` attribute (documented) and is not overwritten",
+    "one vector search returns within 120 s of wall time (search bound <= 39: about a second)",
 ]
 LEVEL_TEXT = ("All planes up to index 3 (thorough 4) with all three out-of-plane choices in a generic cell of each crystal "
               "family, centred settings and Miller-Bravais indices, plus random cells; surface and stacking-fault systems "
               "built from hand-made unit cells over multipliers, minimum widths, vacuum, every termination, fault "
               "positions between layers and fractional / full-lattice shifts.  All of it in length units from 1e-12 to 1e6 "
-              "(angstrom-scale numbers in half of the cases, SI metres favoured among the others).")
+              "(angstrom-scale numbers in half of the cases, SI metres favoured among the others).  Every returned array / system "
+              "is re-judged bit for bit after later calls and after the caller overwrote its arguments, earlier results and the unit "
+              "cell; indices, multipliers, vectors, scalars and the stored positions in narrow / unsigned / big-endian / float32 / "
+              "read-only / strided forms; near-symmetric cells, nearly coincident layers, near-integer widths and shifts; shift "
+              "components over 8+ decades; exact signed-permutation images of the cells; option combinations and call orders enumerated.")
 TECHNIQUE = ("exact integer zone-law / determinant arithmetic, independent reciprocal vectors, lattice map-back with "
-             "multiplicity, independent layer analysis along the plane normal, displacement modulo the in-plane lattice")
+             "multiplicity, independent layer analysis along the plane normal, displacement modulo the in-plane lattice; result "
+             "ledger; caller-side mutation; dtype / layout variants; near-threshold and decade-spanning inputs; enumerated option "
+             "combinations")
 WALL = {'quick': 75, 'thorough': 600}
 
 K_PARALLEL = 'C14:free_surface_basis:parallel-inplane-rows'
@@ -203,6 +264,34 @@ def _is_refusal(e):
     return isinstance(e, AssertionError) and 'Failed to find' in str(e)
 
 
+COST_LIMIT = 120.0      # seconds of wall time for ONE vector search (indices <= 4, search bound <= 3 x 12 + 3: seconds at most)
+
+
+class cost_limit:
+    """The search of free_surface_basis is a triple loop over (2 maxindex + 2)^3 candidates; the planes of this check keep the
+    default bound at 12 or below (costlier ones are skipped), i.e. about a second.  A call that has not returned after COST_LIMIT
+    seconds of wall time (two orders of magnitude more, the machine may be busy) is reported instead of being waited for - an index
+    array taken in an unsigned dtype turns -m into 256 - m and the bound into hundreds."""
+
+    def __init__(self, what):
+        self.what = what
+
+    def _fire(self, signum, frame):
+        raise Violation('%s did not return within %.0f s (search bound <= 39 expected: seconds)' % (self.what, COST_LIMIT))
+
+    def __enter__(self):
+        import signal
+        self.old = signal.signal(signal.SIGALRM, self._fire)
+        signal.setitimer(signal.ITIMER_REAL, COST_LIMIT)
+        return self
+
+    def __exit__(self, *exc):
+        import signal
+        signal.setitimer(signal.ITIMER_REAL, 0.0)
+        signal.signal(signal.SIGALRM, self.old)
+        return False
+
+
 def call_basis(am, hkl, box, cut, setting, ret_hex, maxindex=None):
     from atomman.defect import free_surface_basis
     kw = dict(box=box, cutboxvector=cut, return_planenormal=True)
@@ -212,7 +301,8 @@ def call_basis(am, hkl, box, cut, setting, ret_hex, maxindex=None):
         kw['return_hexagonal'] = ret_hex
     if maxindex is not None:
         kw['maxindex'] = maxindex
-    return free_surface_basis(hkl, **kw)
+    with cost_limit('free_surface_basis(%r, cutboxvector=%r)' % (hkl, cut)):
+        return free_surface_basis(hkl, **kw)
 
 
 def judge_basis(out, hkl, Vp, setting, cut, expect4, what):
@@ -1159,7 +1249,8 @@ def construct(am, cls, case, u, ucell, labels, H=PLAIN, **extra):
     if kw.get('tol') is not None:
         what = what[:-1] + ', tol=%r)' % kw['tol']
     try:
-        return cls(H.hkl(hkl), ucell, **kw), what
+        with cost_limit(what):
+            return cls(H.hkl(hkl), ucell, **kw), what
     except AssertionError as e:
         if _is_refusal(e):
             d = scale_diagnosis(am, hkl, u['cell'], cut)
